@@ -1374,7 +1374,7 @@ class GroupByCumulative(Expr, GroupByBase):
             no_default,
             True,
             True,
-            False,
+            True,  # the per-partition last values are indexed by group key
             True,
             None,
             None,
